@@ -16,7 +16,7 @@ CLAIMS = {
  "C05": ("model_checking", "5/C05", "Declarative promote/keep-order property C05_Step model-checked; replay compares forward order, reverse order, peek_lru/peek_mru and Debug order after every step; trace validation on long histories with reallocation anywhere."),
  "C06": ("model_checking", "5/C06", "Object conservation C06_Step (before+args = after + dropped + handed + leaked, pairwise disjoint) model-checked; replay/trace compare the identity (unique tokens) of every dropped, returned and stored object per step; registry reports double drops and end-of-life leaks."),
  "C07": ("model_checking", "5/C07", "Plus: pointer-level model LruList (MemSafe, WellFormed, Refines, IterRefines; two pinned variants must be rejected), the tour replayed by an AddressSanitizer build, and large-scale runs on caches of thousands of entries. WellFormed/SlotStable structural predicates evaluated by TLC on the hook output of every recorded step (links symmetric, nodes = occupied buckets, iterated entry = looked-up entry = list node, mirror traversals); replay compares the same facets after every model transition."),
- "C08": ("exploration", "5/C08", "spec/MemSize.tla transcribes the size algebra; TLC enumerates every type term of depth <= 2 (660 terms over 33 constructors, trait bounds respected) plus a depth-3 sample and fixed tuple/array terms; generated Rust probes log the abstract structure of generated values; TLC checks mem = value + heap, heap = HS(structure) compositionally, the four bulk helpers over 7 iterator shapes = element-wise sums, and 10^6-element runs on a 2 MiB stack terminate."),
+ "C08": ("exploration", "5/C08", "spec/MemSize.tla transcribes the size algebra; TLC enumerates every type term of depth <= 2 (660 terms over 33 constructors, trait bounds respected), the systematic depth-3 bulk layer O(W(leaf)) (580 terms: every container or forwarding wrapper over every wrapper of a heap-owning and a heap-free leaf - where a specialised bulk helper is reached), a seeded depth-3 sample, fixed tuple/array terms and locks held by another thread while measured; generated Rust probes log the abstract structure of generated values; TLC checks mem = value + heap, heap = HS(structure) compositionally, the four bulk helpers over 7 iterator shapes = element-wise sums, and 10^6-element runs on a 2 MiB stack terminate."),
  "C09": ("exploration", "5/C09", "Same generated probes with random builder histories (with_capacity/push/extend/reserve/truncate/shrink at every nesting level); a counting global allocator measures the bytes each value holds; TLC checks the spec's allocation model Held(v) against the allocator, heap_size = allocator bytes for the exact types and the two-sided bound for HashMap/HashSet."),
  "C10": ("model_checking", "5/C10", "Classification/atomicity property C10_Step model-checked on all (state, key, size) combinations incl. simultaneous failure conditions; replay compares variant, numeric fields, identity of the returned pair and the untouched state; trace validation on random states."),
  "C11": ("model_checking", "5/C11", "C11_Step model-checked for shrink/equal/grow-fits/grow-evicts/overflow at every position; replay compares result forwarding, closure-ran flag, error fields, identity and post-state."),
